@@ -6,5 +6,5 @@ cd /repo || exit 9
 if ! git diff --quiet; then echo "/repo dirty, refusing"; exit 9; fi
 if ! git apply "$P"; then echo "PATCH DOES NOT APPLY: $P"; exit 9; fi
 ( cd /verif && "$@" ); rc=$?
-git -C /repo checkout -- . 
+git -C /repo checkout -- . ; git -C /repo clean -fdq -- src
 exit $rc
